@@ -60,6 +60,21 @@ CHECKS['C19'] = dict(
     technique='machine-checked proof (Coq) over code regenerated from the source + differential correspondence on histories',
 )
 
+CHECKS['C05'] = dict(
+    text=('Proof. The loop bodies of the three persistent do_work methods, _send_result and _cleanup are regenerated on every run as '
+          'instruction lists (copy kind of args/kwargs, get, break-on-None, unpack, slice merge, update, run, send; counter increment and put; '
+          'end marker and closes); an interpreter in Coq gives them meaning over mutable argument values. Theorems: for every defaults (list or '
+          'tuple), default kwargs and enqueue sequence, and every target (also one that mutates all its arguments), each kind writes result k = '
+          'f(merge(pristine defaults, enqueue k)) numbered k and then exactly one end marker; merge laws; for every parent-side history of '
+          'enqueue/next_result/call/close/wait the delivered values are a prefix in order of the accepted enqueues. Real workers are run on '
+          'generated cases and histories and compared with the model (thread kind in quick, all kinds in thorough).'),
+    design='5/C05',
+    note=('Values are tokens with a mutation count; deepcopy/list()/aliasing are modelled as three copy kinds read from the source. The parent API '
+          'model (Persist/Model.v pstep) is hand-written and tied by differential histories only; blocking next_result calls are excluded from '
+          'histories. ' + COMMON_NOTE),
+    technique='machine-checked proof (Coq) over instruction lists regenerated from the source + differential correspondence',
+)
+
 NOT_YET = {}
 
 
